@@ -65,6 +65,8 @@ def _graphs():
     return G
 
 
+TEMPLATED_ACTIONS = [("DISABLED_T", "on", "on"), ("DISABLE_T", "on", "on"), ("off_T", "on", "on"), ("on", "option_T", "on"), ("on", "off_T", "on"),
+                     ("on", "on", "option_T"), ("on", "on", "off_T"), ("DISABLED_T", "option_T", "option_T"), ("off_T", "off_T", "off_T")]
 CACHE = ["on", "DISABLED", "DISABLE", "ctx"]
 EFFECTS = ["on", "option", "toggle"]
 LOGGING = ["on", "option", "ctx"]
@@ -191,6 +193,16 @@ class Rig:
 
         opts = copy.deepcopy(o)
         lab = {}
+        # switch values given as references to other options ("{SW.ON}" holds True, "{SW.OFF}" holds False):
+        # option values are templated like any other option
+        if any(x in TEMPLATED for x in (c, e, l)):
+            opts["SW"] = {"ON": True, "OFF": False}
+        if c in ("DISABLED_T", "DISABLE_T", "off_T"):
+            lab.setdefault("CACHE", {})["DISABLE" if c == "DISABLE_T" else "DISABLED"] = "{SW.OFF}" if c == "off_T" else "{SW.ON}"
+        if e in ("option_T", "off_T"):
+            lab.setdefault("EFFECTS", {})["DISABLED"] = "{SW.OFF}" if e == "off_T" else "{SW.ON}"
+        if l in ("option_T", "off_T"):
+            lab.setdefault("LOGGING", {})["DISABLED"] = "{SW.OFF}" if l == "off_T" else "{SW.ON}"
         if c == "DISABLED":
             lab.setdefault("CACHE", {})["DISABLED"] = True
         if c == "DISABLE":
@@ -259,8 +271,13 @@ def owner(names, eff):
     return None
 
 
+TEMPLATED = ("DISABLED_T", "DISABLE_T", "option_T", "off_T")
+_CANON = {"DISABLED_T": "DISABLED", "DISABLE_T": "DISABLE", "option_T": "option", "off_T": "on"}
+
+
 def judge(rig, label, mode, o, c, e, l, got, log, records, requests, twin, twin_log, before, after, earlier_on=False):
     out = []
+    c, e, l = _CANON.get(c, c), _CANON.get(e, e), _CANON.get(l, l)
     d = same_obs(got, twin)
     if d:
         out.append(f"value-changed: {d}")
@@ -343,6 +360,8 @@ def run_case(case):
     actions = [(j, c, e, l) for j in range(len(dicts)) for c in CACHE for e in EFFECTS for l in LOGGING]
     # both nestings of the two context managers (they differ only when both are used)
     actions += [(j, "ctx", e, "ctx_outer") for j in range(len(dicts)) for e in EFFECTS]
+    # the option spellings with the value given as a reference to another option (true and false)
+    actions += [(j,) + t for j in range(len(dicts)) for t in TEMPLATED_ACTIONS]
     init = rig.system.snapshot()
     seen = {(CacheSystem.canon(init), frozenset())}
     frontier = [(init, [], frozenset())]
@@ -394,7 +413,7 @@ def summarize(results, tier):
         "traces_validated_against_impl": tot("transitions"),
         "evaluations": tot("transitions"),
         "distinct_nontrivial": tot("nontrivial"),
-        "switch_combinations": len(CACHE) * len(EFFECTS) * len(LOGGING) + len(EFFECTS),
+        "switch_combinations": len(CACHE) * len(EFFECTS) * len(LOGGING) + len(EFFECTS) + len(TEMPLATED_ACTIONS),
         "samples": samples[:6],
         "exhaustive": True,
     }
